@@ -26,6 +26,15 @@ Definition outcome {A} (s : pstate) (bound fuel : nat) (r : res A) : Prop :=
   | Panic _ => False
   end.
 
+(* the same with strict progress: at least one token was consumed (EOF-terminated streams) *)
+Definition outcome_strict {A} (s : pstate) (bound fuel : nat) (r : res A) : Prop :=
+  match r with
+  | Ok _ s' => nlstack s' = nlstack s /\ lasttok s' = lasttok s /\ (rem s' <= rem s)%nat /\
+               (eof_ok s -> (rem s' < rem s)%nat)
+  | OutOfFuel => eof_ok s -> (fuel < bound)%nat
+  | Panic _ => False
+  end.
+
 Notation K := fuel_factor.
 
 (* the token Peek returns under a given newline mode *)
@@ -62,7 +71,7 @@ Ltac norm :=
 Ltac norm_in H :=
   cbv beta iota zeta delta [bind ret peek read get_recovery set_recovery push_include_newlines
                        pop_include_newlines panic out_of_fuel nlstack toks lasttok recovery
-                       rem eof_ok wf step_ok peek_at fst snd outcome] in H.
+                       rem eof_ok wf step_ok peek_at fst snd outcome outcome_strict] in H.
 
 Ltac hd_scrut r :=
   lazymatch r with
@@ -85,7 +94,6 @@ Ltac bool_hyps :=
   | H : (_ =? _) = false |- _ => apply Z.eqb_neq in H
   | H : (_ <? _) = true |- _ => apply Z.ltb_lt in H
   | H : (_ <? _) = false |- _ => apply Z.ltb_ge in H
-  | H : token_matches _ _ = true |- _ => unfold token_matches in H
   end.
 
 Ltac unfold_tokens :=
@@ -99,20 +107,22 @@ Ltac unfold_tokens :=
 
 (* leaves: step_ok goals, fuel inequalities, contradictions *)
 Ltac fin_fast :=
-  cbv beta iota delta [outcome step_ok rem eof_ok nlstack toks lasttok recovery] in *;
+  cbv beta iota delta [outcome outcome_strict step_ok rem eof_ok nlstack toks lasttok recovery] in *;
   unfold fuel_factor in *; cbn [length] in *;
   repeat match goal with H : _ /\ _ |- _ => destruct H end;
   subst;
   solve [ tauto | intuition (try congruence; try lia) ].
 
 Ltac fin_slow :=
-  cbv beta iota delta [outcome step_ok rem eof_ok nlstack toks lasttok recovery] in *;
+  cbv beta iota delta [outcome outcome_strict step_ok rem eof_ok nlstack toks lasttok recovery] in *;
   unfold fuel_factor in *; cbn [length] in *;
   intros;
-  bool_hyps; unfold_tokens;
-  repeat match goal with H : _ /\ _ |- _ => destruct H end;
-  subst;
-  solve [ intuition (subst; try congruence; try lia) ].
+  bool_hyps;
+  first [ congruence
+        | unfold token_matches in *; bool_hyps; unfold_tokens;
+          repeat match goal with H : _ /\ _ |- _ => destruct H end;
+          subst;
+          solve [ intuition (subst; try congruence; try lia) ] ].
 
 Ltac fin := first [ fin_fast | fin_slow ].
 
@@ -131,16 +141,19 @@ Ltac pre_solve :=
           first [ assumption | congruence | left; congruence | right; congruence
                 | apply Z.eqb_eq; congruence ] ].
 
+Ltac find_spec :=
+  first [ known_spec
+        | match goal with H : _ |- _ => eapply H; first [ callee_wf | eassumption | lia | pre_solve ] end ].
+
 Ltac use_spec x :=
   let Hc := fresh "Hc" in
-  eassert (Hc : outcome _ _ _ x) by
-    (first [ known_spec
-           | match goal with H : _ |- _ => eapply H; first [ callee_wf | eassumption | lia | pre_solve ] end ]);
+  first [ eassert (Hc : outcome_strict _ _ _ x) by find_spec
+        | eassert (Hc : outcome _ _ _ x) by find_spec ];
   let a := fresh "a" in let s' := fresh "s" in let E := fresh "Ecall" in
   destruct x as [a s'| |?] eqn:E;
   [ let tk := fresh "tk" in let lt := fresh "lt" in let sk := fresh "sk" in let rc := fresh "rc" in
     destruct s' as [tk lt sk rc];
-    cbv beta iota delta [outcome step_ok rem nlstack toks lasttok] in Hc;
+    cbv beta iota delta [outcome outcome_strict step_ok rem eof_ok nlstack toks lasttok] in Hc;
     let H1 := fresh "Hsk" in let H2 := fresh "Hlt" in let H3 := fresh "Hrem" in
     destruct Hc as (H1 & H2 & H3); subst sk; subst lt
   | | ].
@@ -148,7 +161,11 @@ Ltac use_spec x :=
 Ltac step :=
   norm;
   lazymatch goal with
-  | |- outcome _ _ _ ?r =>
+  | |- ?O _ _ _ ?r =>
+      lazymatch O with
+      | @outcome _ => idtac
+      | @outcome_strict _ => idtac
+      end;
       let x := hd_scrut r in
       lazymatch x with
       | Ok _ _ => fin
@@ -274,4 +291,24 @@ Ltac known_spec ::=
   first [ eapply recover_good; callee_wf
         | eapply recover_over_good; callee_wf
         | eapply recover_after_body_item_good; callee_wf
+        | eapply parse_quoted_string_literal_good; callee_wf ].
+(* (extended after parse_quoted_string_literal_strict below) *)
+
+(* with an opening quote next, parseQuotedStringLiteral consumes at least that token *)
+Lemma parse_quoted_string_literal_strict fuel s :
+  wf s -> (pty (peek_at (hd true (nlstack s)) s) =? TokenOQuote) = true ->
+  outcome_strict s (K * rem s + 2) fuel (parse_quoted_string_literal fuel s).
+Proof.
+  revert s. intros [tk lt sk rc] Hwf Hpre. destruct sk as [|b sk]; [exfalso; apply Hwf; reflexivity|]. clear Hwf.
+  norm_in Hpre. cbv beta iota delta [hd] in Hpre.
+  unfold parse_quoted_string_literal.
+  pose proof quoted_string_loop_good.
+  run.
+Qed.
+
+Ltac known_spec ::=
+  first [ eapply recover_good; callee_wf
+        | eapply recover_over_good; callee_wf
+        | eapply recover_after_body_item_good; callee_wf
+        | eapply parse_quoted_string_literal_strict; [ callee_wf | pre_solve ]
         | eapply parse_quoted_string_literal_good; callee_wf ].
